@@ -17,6 +17,33 @@ CHECKS = {
  "C01": ("dbsim", "fault_enumeration", "deterministic simulation: crash-point enumeration over a journalled in-memory file system, seeded storage programs",
          "Every prefix (plus torn variants and second crashes inside recovery) of the mutating file-system calls of each sampled storage program is recovered by the real FileStorage/WAL code and compared byte-for-byte with the last committed image. Exhaustive over crash points within a program; programs are sampled by seed.",
          "Crash = process death (prefix of issued calls + optional torn call). SimFs is a faithful POSIX file model. Programs are sampled, not enumerated.", "6/C01"),
+ "C04": ("dbsim", "exploration", "deterministic simulation: seeded storage histories with clean restarts, I/O noise and forced contended reads, checked operation by operation against a byte-level reference model",
+         "Seeded search over storage-operation histories on all three back-ends; after every operation every live value is read back and compared with the model, removed values must be unreadable, and after defragmentation / restart the file must hold no unused space.",
+         "Valid requests only; fault-free configuration (the crash configuration is C01). The model is 60 lines and mirrors the documented semantics of insert-at/move/resize.", "6/C04"),
+
+ "C08": ("dbsim", "exploration", "deterministic simulation: seeded query histories with restarts, variant switches, maintenance, I/O noise and aborted transactions, compared with an abstract reference model after every step",
+         "Seeded histories on all six variants; after every step node count, element set, edge endpoints and per-node edge counts are compared with an abstract multigraph, new ids are checked for sign and freshness, and invalid edge inserts must fail without effect - also across clean restarts, variant switches, optimize/shrink and rolled-back transactions.",
+         "The model takes new ids and search targets from the database's own answers (checking sign/freshness), so only the abstract semantics are trusted. Crash/abort/I-O-failure configurations are decided by C02/C03/C13/C32.", "6/C08"),
+
+ "C09": ("dbsim", "exploration", "deterministic simulation: seeded query histories with restarts, variant switches, maintenance, I/O noise and aborted transactions, compared with an abstract reference model after every step",
+         "After every step, for every element, select values / keys / key count must equal the model's ordered key-value list bit-for-bit; selection by keys must follow the requested order and a missing key of a named element must fail - also across restarts and rolled-back transactions (after which only order may differ).",
+         "The model takes new ids and search targets from the database's own answers (checking sign/freshness), so only the abstract semantics are trusted. Crash/abort/I-O-failure configurations are decided by C02/C03/C13/C32.", "6/C09"),
+
+ "C10": ("dbsim", "exploration", "deterministic simulation: seeded query histories with restarts, variant switches, maintenance, I/O noise and aborted transactions, compared with an abstract reference model after every step",
+         "After every step the alias bijection of the model is compared with select aliases (per node, all) and alias resolution; re-aliasing, stealing, removal, id reuse; empty aliases and aliases for edges must be rejected without effect - also across restarts and rolled-back transactions.",
+         "The model takes new ids and search targets from the database's own answers (checking sign/freshness), so only the abstract semantics are trusted. Crash/abort/I-O-failure configurations are decided by C02/C03/C13/C32.", "6/C10"),
+
+ "C11": ("dbsim", "exploration", "deterministic simulation: seeded query histories with restarts, variant switches, maintenance, I/O noise and aborted transactions, compared with an abstract reference model after every step",
+         "After every step, for every indexed key and every value present anywhere in the database, the index search result and the index listing counts are compared with what the model derives from current values - across replacement, cascaded removal, rehash, rollback, restart and variant switch.",
+         "The model takes new ids and search targets from the database's own answers (checking sign/freshness), so only the abstract semantics are trusted. Crash/abort/I-O-failure configurations are decided by C02/C03/C13/C32.", "6/C11"),
+
+ "C12": ("dbsim", "exploration", "deterministic simulation: seeded query histories with restarts, variant switches, maintenance, I/O noise and aborted transactions, compared with an abstract reference model after every step",
+         "Narrow claim (DESIGN.md 6/C12): values from a full-domain generator (all nine kinds, lengths around the 15/16 inline boundary, NaN payloads, signed zeros, extreme integers, multi-byte UTF-8) used as keys and values must read back bit-identical after clean restarts and reopening with another variant; the in-process read-back is a by-product.",
+         "The model takes new ids and search targets from the database's own answers (checking sign/freshness), so only the abstract semantics are trusted. Crash/abort/I-O-failure configurations are decided by C02/C03/C13/C32.", "6/C12"),
+
+ "C18": ("dbsim", "exploration", "deterministic simulation: seeded query histories with restarts, variant switches, maintenance, I/O noise and aborted transactions, compared with an abstract reference model after every step",
+         "After every step the unconditional elements search must equal the model's live ids ordered by id magnitude, limit/offset slices must equal slices of that list, node/edge conditions filter it, and removed elements never appear - across id reuse, restarts and rolled-back transactions.",
+         "The model takes new ids and search targets from the database's own answers (checking sign/freshness), so only the abstract semantics are trusted. Crash/abort/I-O-failure configurations are decided by C02/C03/C13/C32.", "6/C18"),
 }
 
 NA = {
